@@ -29,3 +29,8 @@ func verifS8bDecodeBytes(dst []uint64, src []byte) (int, error) {
 	}
 	return n, nil
 }
+
+func verifS8bDecode(dst *[240]uint64, v uint64) (int, error) {
+	dst[0] = v
+	return 1, nil
+}
